@@ -1071,6 +1071,12 @@ def evaluate(cases, runner, timeout=20.0):
     """cases: list of ASTs. returns list of dicts(ast, src, impl, model, verdict)"""
     srcs = [src(e) for e in cases]
     res = common.run_prog(srcs, timeout=timeout, fuel=IMPL_FUEL)
+    # a wall-clock timeout / lost worker on a loaded machine is not yet an observation: the fuel hook
+    # bounds every evaluation, so re-run such cases one at a time with a generous limit
+    redo = [i for i, r in enumerate(res) if r.get("status") in ("hang", "abort", "badjson")]
+    for i in redo[:50]:
+        res[i] = common.run_harness(common.harness_bin("prog"), [{"id": 0, "fuel": IMPL_FUEL, "fresh": False, "src": srcs[i]}],
+                                    timeout=180.0, workers=1)[0]
     rows = []
     todo = []
     for e, s, r in zip(cases, srcs, res):
@@ -1147,8 +1153,13 @@ def report(ctx, rows, runner):
         v = row["verdict"]
         e = row["ast"]
         if v in ("disagree", "crash") and runner:
+            again = evaluate([e], runner)[0]
+            if again["verdict"] != v:
+                continue                      # not reproducible (e.g. a timeout under load): no alarm
             e = shrink(e, runner, v)
             row = evaluate([e], runner)[0]
+            if row["verdict"] != v:
+                row = again
         key = (v, str(row["impl"]), str(row["model"]))
         if key in seen:
             continue
